@@ -65,7 +65,7 @@ FLOAT_TARGETS = [
     ('note_seq.performance_lib', 'MetricPerformance.to_sequence@seconds_per_step', 'trf_sigma_metric', 'F', {'qpm': 'F'}),
     ('note_seq.performance_lib', 'Performance.to_sequence@seconds_per_step', 'trf_sigma_performance', 'F', {}),
     ('note_seq.performance_lib', 'NotePerformance.to_sequence@seconds_per_step', 'trf_sigma_noteperformance', 'F', {}),
-    ('note_seq.audio_io', 'crop_samples@samples_to_crop,total_samples', 'trf_crop_bounds', 'ZZ',
+    ('note_seq.audio_io', 'crop_samples@slice', 'trf_crop_slice', 'ZZ',
      {'samples': 'len', 'sample_rate': 'Z', 'crop_beginning_seconds': 'F', 'total_length_seconds': 'F'}),
     ('note_seq.audio_io', 'repeat_samples_to_duration@num_repeats', 'trf_num_repeats', 'Z',
      {'samples': 'len', 'sample_rate': 'Z', 'duration': 'F'}),
@@ -127,9 +127,9 @@ class Tr(object):
             raise TranslationError('unknown attribute %s' % k)
         if self.is_elem(e):
             return env['@elem'], 'Z'
-        if isinstance(e, ast.Subscript) and isinstance(e.value, ast.Name) and ('@dict:' + e.value.id) in env:
-            # d[k] of a local constant dict: a KeyError is an exception (guard), the value an if-chain
-            items = env['@dict:' + e.value.id]
+        if isinstance(e, ast.Subscript) and self.const_dict(e.value, env) is not None:
+            # d[k] of a constant dict: a KeyError is an exception (guard), the value an if-chain
+            items = self.const_dict(e.value, env)
             k = self.z(e.slice, env)
             self.guards.append(('cond', self.dict_member(k, items, False)))
             out = '(0)'
@@ -175,9 +175,8 @@ class Tr(object):
             parts = []
             left = e.left
             for op, right in zip(e.ops, e.comparators):
-                if isinstance(op, (ast.In, ast.NotIn)) and isinstance(right, ast.Name) and \
-                        ('@dict:' + right.id) in env:
-                    parts.append(self.dict_member(self.z(left, env), env['@dict:' + right.id],
+                if isinstance(op, (ast.In, ast.NotIn)) and self.const_dict(right, env) is not None:
+                    parts.append(self.dict_member(self.z(left, env), self.const_dict(right, env),
                                                   isinstance(op, ast.NotIn)))
                     left = right
                     continue
@@ -268,6 +267,33 @@ class Tr(object):
                 return tmp, 'Z'
             raise TranslationError('call of %s' % ast.dump(f)[:60])
         raise TranslationError('expression %s' % type(e).__name__)
+
+    def const_dict(self, node, env):
+        """items [(key text, value text)] of a constant table: a local dict literal, or a module-level / class-level
+        dict whose keys are ints or one-character strings and whose values are ints (inlined with its current
+        content, like every other module constant); None if `node` is not such a table"""
+        if isinstance(node, ast.Name) and ('@dict:' + node.id) in env:
+            return env['@dict:' + node.id]
+        obj = None
+        if isinstance(node, ast.Name) and node.id not in env:
+            obj = getattr(self.mod, node.id, None)
+        elif isinstance(node, ast.Attribute) and isinstance(node.value, ast.Name):
+            owner = getattr(self, 'cls', None) if node.value.id in ('self', 'cls') else getattr(self.mod, node.value.id, None)
+            obj = getattr(owner, node.attr, None) if owner is not None else None
+        if not isinstance(obj, dict) or not obj:
+            return None
+        items = []
+        for k, v in obj.items():
+            if isinstance(k, str) and len(k) == 1:
+                kt = '(%d)' % ord(k)
+            elif isinstance(k, int) and not isinstance(k, bool):
+                kt = '(%d)' % k
+            else:
+                return None
+            if not (isinstance(v, int) and not isinstance(v, bool)):
+                return None
+            items.append((kt, '(%d)' % v))
+        return items
 
     @staticmethod
     def dict_member(k, items, negate):
@@ -418,6 +444,8 @@ class Tr(object):
             return wrap('Some %s' % text)
         if isinstance(s, ast.Raise):
             return 'None'
+        if isinstance(s, ast.Continue) and kind == 'elem':
+            return 'Some %s' % env['@elem']          # the iteration ends here with the element as it is now
         if isinstance(s, ast.Delete) and all(isinstance(t, ast.Name) for t in s.targets):
             return self.block(tail, env, rest, kind)      # `del a, b` of local names: no effect on the result
         if kind == 'state':
@@ -518,12 +546,42 @@ def translate(modname, qual, coqname, kind, coqnames, ptypes=None):
         inner = [n for n in ast.walk(fd) if isinstance(n, ast.FunctionDef) and n.name == nested]
         if len(inner) != 1:
             raise TranslationError('nested function %s not found exactly once in %s' % (nested, qual))
+        # locals of the enclosing function that the nested one reads (simple top-level assignments before its
+        # definition, e.g. a hoisted `use_x = x > 0.0`) are replayed as a prefix of the nested body
+        reads = set(n.id for n in ast.walk(inner[0]) if isinstance(n, ast.Name) and isinstance(n.ctx, ast.Load))
+        own = set(a_.arg for a_ in inner[0].args.args) | set(
+            t.id for n in ast.walk(inner[0]) if isinstance(n, ast.Assign) for t in n.targets if isinstance(t, ast.Name))
+        prefix = []
+        for st in fd.body:
+            if st is inner[0] or (hasattr(st, 'lineno') and st.lineno >= inner[0].lineno):
+                break
+            if isinstance(st, ast.Assign) and len(st.targets) == 1 and isinstance(st.targets[0], ast.Name) and \
+                    st.targets[0].id in reads - own and st.targets[0].id not in (ptypes or {}):
+                prefix.append(st)
         fd = inner[0]
+        fd.body = prefix + fd.body
     if upto:
         # "f@a" : value of local a after the straight-line prefix ending at its first assignment;
         # "f@a,b": the pair (a, b) after the prefix that contains the first assignment of both (order-insensitive)
         wanted = upto.split(',')
         body0 = [x for x in fd.body if not (isinstance(x, ast.Expr) and isinstance(x.value, ast.Constant))]
+        if upto == 'slice':
+            # "f@slice": f ends in `return X[lo:hi]` (or `y = X[lo:hi]; return y`); the value is the pair (lo, hi) --
+            # a description by behaviour, insensitive to the names of the locals that hold the bounds
+            if not (body0 and isinstance(body0[-1], ast.Return)):
+                raise TranslationError('%s does not end in a return' % qual)
+            rv = body0[-1].value
+            cut = len(body0) - 1
+            if isinstance(rv, ast.Name) and cut >= 1 and isinstance(body0[-2], ast.Assign) and \
+                    len(body0[-2].targets) == 1 and isinstance(body0[-2].targets[0], ast.Name) and \
+                    body0[-2].targets[0].id == rv.id:
+                rv = body0[-2].value
+                cut -= 1
+            if not (isinstance(rv, ast.Subscript) and isinstance(rv.slice, ast.Slice) and rv.slice.step is None and
+                    rv.slice.lower is not None and rv.slice.upper is not None):
+                raise TranslationError('%s does not return a two-sided slice' % qual)
+            fd.body = body0[:cut] + [ast.Return(value=ast.Tuple(elts=[rv.slice.lower, rv.slice.upper], ctx=ast.Load()))]
+            wanted = []
         last = -1
         for w in wanted:
             idx = [i for i, x in enumerate(body0) if isinstance(x, ast.Assign) and len(x.targets) == 1 and
@@ -531,13 +589,20 @@ def translate(modname, qual, coqname, kind, coqnames, ptypes=None):
             if not idx:
                 raise TranslationError('no assignment to %s in %s' % (w, qual))
             last = max(last, idx[0])
-        names_ = [ast.Name(id=w, ctx=ast.Load()) for w in wanted]
-        ret = names_[0] if len(names_) == 1 else ast.Tuple(elts=names_, ctx=ast.Load())
-        fd.body = body0[:last + 1] + [ast.Return(value=ret)]
+        if wanted:
+            names_ = [ast.Name(id=w, ctx=ast.Load()) for w in wanted]
+            ret = names_[0] if len(names_) == 1 else ast.Tuple(elts=names_, ctx=ast.Load())
+            fd.body = body0[:last + 1] + [ast.Return(value=ret)]
     a = fd.args
     if a.vararg or a.kwarg or a.kwonlyargs or a.kw_defaults:   # positional defaults are fine: every parameter is explicit
         raise TranslationError('unsupported signature: %s' % qual)
     tr = Tr(mod, coqnames)
+    tr.cls = None
+    if '.' in qual:
+        owner = mod
+        for part in qual.split('.')[:-1]:
+            owner = getattr(owner, part, None)
+        tr.cls = owner if inspect.isclass(owner) else None
     tr.fresh = 0
     tr.loop_index = None
     tr.types = dict((k, v) for k, v in (ptypes or {}).items())
@@ -592,21 +657,38 @@ def translate(modname, qual, coqname, kind, coqnames, ptypes=None):
         # `for i in range(len(self)): BODY` where BODY reads/writes only self._events[i]: the method maps the
         # per-element function over the event list; the translation IS that per-element function (extra last
         # parameter `elem` = the element's value before the iteration, result = its value after it)
-        ok = (len(stmts) == 1 and isinstance(stmts[0], ast.For) and isinstance(stmts[0].target, ast.Name) and
-              not stmts[0].orelse and ast.unparse(stmts[0].iter) in ('range(len(self))', 'range(len(self._events))'))
-        if not ok:
+        # leading assignments that do not touch the events (loop-invariant locals such as `k = amount % 12`) are kept
+        # as a prefix of the per-element function
+        pre = []
+        while len(stmts) > 1 and isinstance(stmts[0], ast.Assign) and len(stmts[0].targets) == 1 and \
+                isinstance(stmts[0].targets[0], ast.Name) and '_events' not in ast.unparse(stmts[0].value):
+            pre.append(stmts.pop(0))
+        loop = stmts[0] if len(stmts) == 1 and isinstance(stmts[0], ast.For) and not stmts[0].orelse else None
+        it = ast.unparse(loop.iter) if loop is not None else ''
+        elem_name = None
+        if loop is not None and isinstance(loop.target, ast.Name) and it in ('range(len(self))', 'range(len(self._events))'):
+            tr.loop_index = loop.target.id
+        elif loop is not None and isinstance(loop.target, ast.Tuple) and len(loop.target.elts) == 2 and \
+                all(isinstance(x, ast.Name) for x in loop.target.elts) and it in ('enumerate(self._events)', 'enumerate(self)'):
+            # for i, x in enumerate(self._events): x is the element's value at the START of the iteration
+            tr.loop_index = loop.target.elts[0].id
+            elem_name = loop.target.elts[1].id
+        else:
             raise TranslationError('%s is not a single element-wise loop over the events' % qual)
-        tr.loop_index = stmts[0].target.id
+        stmts = [loop]
         for node in ast.walk(stmts[0]):
             if isinstance(node, ast.Name) and node.id == tr.loop_index and not (
                     any(tr.is_elem(par) and par.slice is node for par in ast.walk(stmts[0]))):
-                if node is not stmts[0].target:
+                if node is not stmts[0].target and not (isinstance(stmts[0].target, ast.Tuple) and
+                                                        node is stmts[0].target.elts[0]):
                     raise TranslationError('loop index used other than as self._events[i]')
         params = [p for p in params if p != 'self_events']
         params.append('elem')
         env['@elem'] = 'elem'
+        if elem_name:
+            env[elem_name] = 'elem'
         env.pop('self._events', None)
-        body = tr.block(stmts[0].body, env, None, kind)
+        body = tr.block(pre + stmts[0].body, env, None, kind)
     else:
         body = tr.block(fd.body, env, None, kind)
     ty = {'Z': 'Z', 'bool': 'bool', 'unit': 'unit', 'elem': 'Z', 'F': 'PrimFloat.float', 'ZZ': '(Z * Z)',
@@ -619,6 +701,24 @@ def translate(modname, qual, coqname, kind, coqnames, ptypes=None):
     return 'Definition %s %s : option %s :=\n  %s.\n' % (coqname, sig, ty, body), src
 
 
+# coq name -> reason, for every target whose source could not be read this run.  One unreadable function must not take
+# the other targets (other properties) down with it: its definition is simply absent from the generated file, so exactly
+# the equivalence lemmas that mention it stop compiling (fail closed, per target).
+FAILURES = {}
+
+
+def _one(coqname, thunk):
+    try:
+        FAILURES.pop(coqname, None)
+        return thunk()[0]
+    except TranslationError as e:
+        FAILURES[coqname] = str(e)
+        return '(* NOT TRANSLATED this run (%s): %s *)\n' % (coqname, str(e).replace('*)', '* )'))
+    except (AttributeError, OSError, TypeError, SyntaxError) as e:      # function renamed / moved / not introspectable
+        FAILURES[coqname] = '%s: %s' % (type(e).__name__, e)
+        return '(* NOT TRANSLATED this run (%s): %s *)\n' % (coqname, str(e).replace('*)', '* )'))
+
+
 def generate():
     """Text of coq/Gen/Tr.v."""
     out = ['(* GENERATED on every run by harness/vt/pytr.py from the SOURCE TEXT of the note_seq functions named below.',
@@ -627,10 +727,10 @@ def generate():
     done = {}
     for modname, qual, coqname, kind in TARGETS:
         coqnames = {q.split('.')[-1]: c for (m, q, c, k) in TARGETS if m == modname and c in done}
-        text, src = translate(modname, qual, coqname, kind, coqnames)
         out.append('(* %s.%s *)' % (modname, qual))
-        out.append(text)
-        done[coqname] = True
+        out.append(_one(coqname, lambda: translate(modname, qual, coqname, kind, coqnames)))
+        if coqname not in FAILURES:
+            done[coqname] = True
     return '\n'.join(out)
 
 
@@ -649,9 +749,8 @@ def generate_state():
            'From Coq Require Import ZArith Bool List.', 'From NS Require Import Model.Events.',
            'Import ListNotations.', 'Local Open Scope Z_scope.', '']
     for modname, qual, coqname, kind, ptypes in STATE_TARGETS:
-        text, src = translate(modname, qual, coqname, kind, {}, ptypes)
         out.append('(* %s.%s *)' % (modname, qual))
-        out.append(text)
+        out.append(_one(coqname, lambda: translate(modname, qual, coqname, kind, {}, ptypes)))
     return '\n'.join(out)
 
 
@@ -662,9 +761,8 @@ def generate_float():
            'From Coq Require Import ZArith Bool Floats.', 'From NS Require Import Base.FloatBridge.',
            'Local Open Scope Z_scope.', '']
     for modname, qual, coqname, kind, ptypes in FLOAT_TARGETS:
-        text, src = translate(modname, qual, coqname, kind, {}, ptypes)
         out.append('(* %s.%s *)' % (modname, qual))
-        out.append(text)
+        out.append(_one(coqname, lambda: translate(modname, qual, coqname, kind, {}, ptypes)))
     return '\n'.join(out)
 
 
